@@ -1,5 +1,6 @@
 (* C25 - property theorems. *)
-From V Require Import Lib.Base C25.Model C25.Proofs.
+From Coq Require Import String.
+From V Require Import Lib.Base C25.Model C25.Proofs C25.Gen.
 
 (* For every number of goroutines, every call history (any kinds, in particular acquire /
    re-acquire / query / release / has-tx / next-tx / sizes / submit / get-peers), every
@@ -42,3 +43,12 @@ Example C25_nonvacuous : exists s,
             LAcquire 0; LSend 0; LServe; LDeliver; LRv 0; LAcquire 2; LSend 2; LServe; LDeliver; LRv 2] = Some s
   /\ rets s = [(1, 3, 0, 0); (0, 7, 1, 1); (2, 7, 2, 2)].
 Proof. eexists. split; vm_compute; reflexivity. Qed.
+
+(* Translator tie (Gen.v is regenerated from protocol/*/client.go on every run): every
+   exported Client method of the four packages that reaches SendMessage through its own
+   body or unexported helpers takes busyMutex first thing, releases it only by the
+   deferred Unlock, i.e. is one critical section as the LTS assumes.  The checker
+   returns the offending entries. *)
+Definition bad_entries := filter (fun x => negb (snd x)) lock_table.
+Theorem C25_lock_discipline : bad_entries = [] /\ 40 <= length lock_table.
+Proof. split; [vm_compute; reflexivity|]. vm_compute. repeat constructor. Qed.
